@@ -22,10 +22,6 @@ pub struct Case {
     pub local_now: i64,
 }
 
-/// a version-1 TZif file with one local time type `off` in force since 1901
-pub fn fixed_zone_bytes(off: i32) -> Vec<u8> {
-    crate::tzsyn::Synth { version: 1, types: vec![(off, false)], transitions: vec![(i32::MIN as i64, 0)], v1_populated: true, footer: None, indicators: false, leaps: 0 }.build()
-}
 
 pub fn fmt_year4(y: i64) -> String {
     if y < 0 {
@@ -129,7 +125,7 @@ impl Prop for DtOffset {
             2 => off,
             _ => gen::offset(u)?,
         };
-        let local_now = if u.coin(1, 6)? { u.range_i64(-2_000_000_000, 16_000_000_000)?.max(1) } else { 0 };
+        let local_now = if u.coin(1, 6)? { u.range_i64(-1_900_000_000, 2_100_000_000)? } else { 0 };
         Ok(Case { i, off, off2, local_now })
     }
     fn check(c: &Case, cx: &mut Cx) -> Verdict {
@@ -142,12 +138,12 @@ impl Prop for DtOffset {
         let i = c.i.i();
         classify(i, c.off, cx);
         let mut o = Offset::Fixed(c.off);
-        let zone = fixed_zone_bytes(c.off);
+        let zone = local_zone_bytes(c.off, c.local_now);
         if c.local_now != 0 {
             // Offset::Local is an offset too: with a zone file whose offset is `off` everything
             // stated for Fixed(off) holds for it
             let ok = crate::model::tz::read(&zone).ok().and_then(|z| z.offset_at(c.local_now)) == Some(c.off);
-            if !ok || !(-2_100_000_000..=16_700_000_000i64).contains(&c.local_now) {
+            if !ok || !local_now_ok(c.local_now) {
                 return Verdict::Skip("malformed case");
             }
             cx.nt("offset_carried_as_Offset::Local");
